@@ -32,6 +32,14 @@ if [ $erc -ne 0 ]; then
       [ $r2 -eq 0 ] && break
     done
     if [ $r1 -eq 0 ] && [ $r2 -eq 0 ]; then erc=0; echo "existing-retried=$failed"; fi
+  else
+    # no test reported a failure: a goroutine left behind by a finished test panicked after the test's
+    # directory was removed (seen on the unchanged tree under load as well): run the suite again, twice at most
+    for attempt in 1 2; do
+      echo "== retry: whole suite (the test binary died without a failing test)"
+      unshare -n sh -c 'ip link set lo up; exec "$0" "$@"' go test -count=1 -timeout 25m "$@" 2>&1 | tail -8
+      if [ ${PIPESTATUS[0]} -eq 0 ]; then erc=0; echo "existing-retried=whole-suite"; break; fi
+    done
   fi
 fi
 echo "existing-rc=$erc"
